@@ -245,6 +245,22 @@ SeekList(s, k) ==
     LET r == Seek(s, k)
     IN  IF r.done THEN <<>> ELSE ScanFrom(s, r.stack, <<>>, 4 * NKeys + 8)
 
+(* ---- Range (cursor.rs, impl Iterator for Range) --------------------------- *)
+\* bound kinds "I" included, "E" excluded, "U" unbounded
+RangeList(s, lk, lo, hk, hi) ==
+    LET sk == Seek(s, lo)
+        from == IF lk = "U" THEN Scan(s) ELSE SeekList(s, lo)
+        \* the first call: seek, then step over the entry before the start (one entry: seek stops at a neighbour)
+        start == IF lk = "I" /\ ~sk.exact /\ from # <<>> /\ from[1] < lo THEN Tail(from)
+                 ELSE IF lk = "E" /\ from # <<>> /\ from[1] <= lo THEN Tail(from)
+                 ELSE from
+        inEnd(x) == CASE hk = "E" -> x < hi [] hk = "I" -> x <= hi [] OTHER -> TRUE
+        \* iteration ends at the first entry beyond the end bound
+        n == IF \E i \in 1..Len(start) : ~inEnd(start[i])
+             THEN (CHOOSE i \in 1..Len(start) : ~inEnd(start[i]) /\ \A j \in 1..i - 1 : inEnd(start[j])) - 1
+             ELSE Len(start)
+    IN  SubSeq(start, 1, n)
+
 (* ---- commit: rebalance -------------------------------------------------- *)
 FreePage(s, id) ==
     IF s.nodes[id].pid # 0
